@@ -168,6 +168,10 @@ def worker_main(prop, cases_path, out_path):
                 reach.stop()
                 tail["obs"]["calls"] = reach.counts()
                 tail["obs"]["calls_by_module"] = reach.module_counts()
+                if os.environ.get("NGS_VERIF_REACH_ALL"):   # tools/reach_report.py
+                    with open(os.path.join(os.environ["NGS_VERIF_REACH_ALL"],
+                                           f"{prop}-{os.getpid()}.json"), "w") as rf:
+                        json.dump(dict(reach._counts), rf)
             if hasattr(mod, "worker_obs"):
                 merge_obs(tail["obs"], mod.worker_obs())
             out.write(json.dumps(tail) + "\n")
